@@ -718,7 +718,8 @@ impl Net {
                 let h = self.handle.as_ref()?.clone();
                 let done = Arc::new(Mutex::new(None::<String>));
                 let d2 = done.clone();
-                std::thread::spawn(move || {
+                // (a named thread: schedule points only park threads that have a name)
+                let _ = std::thread::Builder::new().name("kv-merge".into()).spawn(move || {
                     let r = match h.verif_merge() {
                         Ok(()) => "ok".to_string(),
                         Err(e) => format!("err {}", crate::store::err_kind(&e)),
